@@ -34,6 +34,7 @@ EXPLANATION += (' R-C05-11: nothing cached on the FKM-nonlinear recorder or dete
 EXPLANATION += (' R-C05-12: the per-point look-up tables of the binned law keep the row order they were built in (shared with R-C07-8).')
 EXPLANATION += (' R-C05-15 (helper shared with the C07 rules): every class search of the binned law the detector evaluates is made with the absolute load itself - no offset, tolerance, rounding or scaling on the search key.')
 EXPLANATION += (' R-C05-16: with per-point look-up tables of the binned law the class of every point is searched in that point\'s own table; a search with the first point\'s load whose result selects the rows of all points is reported (open known finding: four look-up methods).')
+EXPLANATION += (' R-C05-17 (shared with R-C04-10): the representative assessment point is the first stored row everywhere in the detector module (no first-after-sort).')
 ASSUMPTIONS = ["pd.concat([a, b]) appends b after a"]
 
 LISTS = ["_loads_min", "_loads_max", "_S_min", "_S_max", "_epsilon_min", "_epsilon_max", "_epsilon_min_LF",
@@ -41,7 +42,7 @@ LISTS = ["_loads_min", "_loads_max", "_S_min", "_S_max", "_epsilon_min", "_epsil
 
 
 def run(ctx):
-    for r in (_r1, _r2, _r3, _r4, _r5, _r6, _r7, _r8, _r9, _r10, _r11, _r12, _r13, _r14, _r15, _r16):
+    for r in (_r1, _r2, _r3, _r4, _r5, _r6, _r7, _r8, _r9, _r10, _r11, _r12, _r13, _r14, _r15, _r16, _r17):
         ctx.attempt(r)
 
 
@@ -788,6 +789,12 @@ def _r10(ctx, own_rule=True):
                                              (f.name, norm_text(cmp_), eps), text=norm_text(cmp_))
     if n == 0:
         raise AnalysisError("no guarded load comparison found in the HCM case analysis")
+
+
+def _r17(ctx):
+    """R-C05-17 (shared with R-C04-10): the representative assessment point is the first stored row everywhere."""
+    from .c04 import representative_rule
+    representative_rule(ctx, "R-C05-17")
 
 
 def _r16(ctx):
